@@ -56,10 +56,12 @@ def finish(res, t0, explanation, design_ref, complete_clauses=()):
     counts = {}
     for rule, site, ok, how in res.obs:
         counts[rule] = counts.get(rule, 0) + 1
-    for rule, n in res.floors.items():
-        if counts.get(rule, 0) < n:
-            raise BrokenAnalysis("rule %s matched %d instance(s), floor is %d (anchor vanished or rule blind)"
-                                 % (rule, counts.get(rule, 0), n))
+    short = ["rule %s matched %d instance(s), floor is %d (anchor vanished or rule blind)" % (rule, counts.get(rule, 0), n)
+             for rule, n in res.floors.items() if counts.get(rule, 0) < n]
+    if short and not res.viol:
+        # a floor guards *passes* against vacuity; a reported violation stands on its own
+        raise BrokenAnalysis("; ".join(short))
+    res.notes += short
     known = [k for k in load_known() if k.get("property") == prop]
     real = []
     printed = set()
